@@ -13,16 +13,31 @@ import (
 
 func init() {
 	eng.Register(&eng.Check{
-		ID: "C08",
-		Rule: "E1 two-run non-interference: a struct with a renamed field (bexpr:\"v\" json:\"jv\"), fields hidden under each tag name (bexpr:\"-\", json:\"-\", pointer:\"-\"), an unexported field and a rename-colliding field (tag = Go name of a hidden field), placed at top level / behind a pointer / as map value / slice element / nested struct field / []*S element; EVERY assignment of a 3-value hidden-content alphabet (incl. the literal used by the expressions) to the 4 hideable fields (81 data per nesting); data are grouped by their projection on the fields visible under the configuration (tag name in {bexpr, json, \"\"} x unknown value {none, \"secret\"}); oracle: (a) every expression (hidden field by Go name, tag name, JSON pointer, through quantifiers, in / is empty / matches / == on the field and on the enclosing struct) has ONE outcome per group; (b) agreement with the reference (a hidden field never resolves to its content; renamed field only under its tag name); (c) Filter.Execute over the members of one group keeps all or none. Distinct by construction; non-trivial = group with >=2 members differing in hidden contents.",
+		ID:          "C08",
+		Rule:        "E1 two-run non-interference: a struct with a renamed field (bexpr:\"v\" json:\"jv\"), fields hidden under each tag name (bexpr:\"-\", json:\"-\", pointer:\"-\"), an unexported field and a rename-colliding field (tag = Go name of a hidden field), placed at top level / behind a pointer / as map value / slice element / nested struct field / []*S element; EVERY assignment of a 3-value hidden-content alphabet (the literal used by the expressions, the zero value nil, a list) to the 4 hideable fields (81 data per nesting), in two variants (visible fields non-zero / all visible fields zero); data are grouped by their projection on the fields visible under the configuration (tag name in {bexpr, json, \"\"} x unknown value {none, \"secret\"}); oracle: (a) every expression (hidden field by Go name, tag name, JSON pointer, through quantifiers, in / is empty / matches / == on the field and on the enclosing struct) has ONE outcome per group; (b) agreement with the reference (a hidden field never resolves to its content; renamed field only under its tag name); (c) Filter.Execute over the members of one group keeps all or none. Distinct by construction; non-trivial = group with >=2 members differing in hidden contents.",
 		Assumptions: []string{"reference interpreter as C01", "hidden-content alphabet of 3 values"},
 		Run:         runC08,
 	})
 }
 
-var c08Hidden = []*Node{str("secret"), one, NSlice(TAny, str("secret"))}
+var c08Hidden = []*Node{str("secret"), NNilAny(), NSlice(TAny, str("secret"))}
+
+// c08ZeroVisible selects the variant whose visible fields hold zero values (so that the whole struct value is
+// zero exactly when its hidden fields are)
+var c08ZeroVisible bool
 
 func c08Struct(h, j, u, p *Node) *Node {
+	if c08ZeroVisible {
+		return NStruct(
+			F{Name: "V", Tag: `bexpr:"v" json:"jv" pointer:"pv"`, V: NNilAny()},
+			F{Name: "H", Tag: `bexpr:"-" json:"h"`, V: NAny(h)},
+			F{Name: "J", Tag: `json:"-"`, V: NAny(j)},
+			F{Name: "u", Unexp: true, V: NAny(u)},
+			F{Name: "R", Tag: `bexpr:"H" json:"J" pointer:"P"`, V: NNilAny()},
+			F{Name: "P", Tag: `pointer:"-" json:"p"`, V: NAny(p)},
+			F{Name: "N", V: NInt(KInt, false, 0)},
+		)
+	}
 	return NStruct(
 		F{Name: "V", Tag: `bexpr:"v" json:"jv" pointer:"pv"`, V: NAny(str("vis"))},
 		F{Name: "H", Tag: `bexpr:"-" json:"h"`, V: NAny(h)},
@@ -57,7 +72,9 @@ func c08Nests() []c08Nest {
 		{"map-value", []string{"m", "k"}, func(s *Node) *Node { return NMap(TStr, TAny, str("m"), NMap(TStr, s.T, str("k"), s)) }},
 		{"slice-elem", []string{"l", "0"}, func(s *Node) *Node { return NMap(TStr, TAny, str("l"), NSlice(s.T, s)) }},
 		{"nested-struct", []string{"N"}, func(s *Node) *Node { return NStruct(F{Name: "N", V: s}, F{Name: "x", Unexp: true, V: one}) }},
-		{"ptr-slice-elem", []string{"l", "0"}, func(s *Node) *Node { return NPtr(NStruct(F{Name: "L", Tag: `bexpr:"l" json:"l" pointer:"l"`, V: NSlice(&Type{K: KPtr, Elem: s.T}, NPtr(s))})) }},
+		{"ptr-slice-elem", []string{"l", "0"}, func(s *Node) *Node {
+			return NPtr(NStruct(F{Name: "L", Tag: `bexpr:"l" json:"l" pointer:"l"`, V: NSlice(&Type{K: KPtr, Elem: s.T}, NPtr(s))}))
+		}},
 	}
 }
 
@@ -73,6 +90,9 @@ func c08Exprs(prefix []string) []any {
 			&Match{Sel: sel(n), Op: OpEq, Lit: "secret", JP: true},
 			&Quant{All: false, Sel: sel(n), Mode: BindDefault, Val: "x", Body: &Match{Sel: []string{"x"}, Op: OpEq, Lit: "secret"}})
 	}
+	// expressions that hold for all-zero visible fields (an element must not be dropped or kept because of hidden zero-ness)
+	out = append(out, &Match{Sel: sel("N"), Op: OpEq, Lit: "0"}, &Match{Sel: sel("N"), Op: OpNe, Lit: "1"}, &Not{X: &Match{Sel: sel("N"), Op: OpEq, Lit: "1"}},
+		&Bin{Or: true, L: &Match{Sel: sel("N"), Op: OpEq, Lit: "0"}, R: &Match{Sel: sel("v"), Op: OpEq, Lit: "vis"}})
 	// on the enclosing struct as a whole
 	if len(prefix) > 0 {
 		for _, lit := range []string{"secret", "1"} {
@@ -105,94 +125,98 @@ func runC08(c *eng.Ctx) {
 		val  interface{}
 	}
 	unit := 0
-	for ni, nest := range nests {
-		var ds []datum
-		for a := 0; a < 81; a++ {
-			h := [4]int{a % 3, a / 3 % 3, a / 9 % 3, a / 27 % 3}
-			n := nest.wrap(c08Struct(c08Hidden[h[0]], c08Hidden[h[1]], c08Hidden[h[2]], c08Hidden[h[3]]))
-			ds = append(ds, datum{h, n, Build(n).Interface()})
-		}
-		es := c08Exprs(nest.prefix)
-		for ci, cfg := range cfgs {
-			hidden := c08HiddenSet(cfg.Tag)
-			group := func(d datum) string {
-				var sb strings.Builder
-				for i := 0; i < 4; i++ {
-					if !hidden[i] {
-						fmt.Fprintf(&sb, "%d", d.hid[i])
-					} else {
-						sb.WriteByte('*')
-					}
-				}
-				return sb.String()
+	for pass := 0; pass < 2; pass++ {
+		c08ZeroVisible = pass == 1
+		for ni0, nest := range nests {
+			ni := ni0 + pass*len(nests)
+			var ds []datum
+			for a := 0; a < 81; a++ {
+				h := [4]int{a % 3, a / 3 % 3, a / 9 % 3, a / 27 % 3}
+				n := nest.wrap(c08Struct(c08Hidden[h[0]], c08Hidden[h[1]], c08Hidden[h[2]], c08Hidden[h[3]]))
+				ds = append(ds, datum{h, n, Build(n).Interface()})
 			}
-			for ei, e := range es {
-				unit++
-				if !c.Mine(unit) || !c.Want("n", ni) || !c.Want("c", ci) || !c.Want("e", ei) {
-					continue
+			es := c08Exprs(nest.prefix)
+			for ci, cfg := range cfgs {
+				hidden := c08HiddenSet(cfg.Tag)
+				group := func(d datum) string {
+					var sb strings.Builder
+					for i := 0; i < 4; i++ {
+						if !hidden[i] {
+							fmt.Fprintf(&sb, "%d", d.hid[i])
+						} else {
+							sb.WriteByte('*')
+						}
+					}
+					return sb.String()
 				}
-				if c.Expired() {
-					return
-				}
-				src := Render(e)
-				ev, err := bexpr.CreateEvaluator(src, optsFor(cfg)...)
-				if err != nil {
-					c.Violate(eng.Violation{Kind: "harness-expression-rejected", Key: "create: " + src, Detail: err.Error()})
-					continue
-				}
-				seen := map[string]int{}
-				seenDoc := map[string]*Node{}
-				members := map[string][]interface{}{}
-				for _, d := range ds {
-					got := observe(ev, d.val)
-					want := NewRef(d.node, cfg).Eval(e, nil)
-					c.R.Evaluations++
-					c.R.Traces++
-					c.R.States++
-					co := map[string]int{"n": ni, "c": ci, "e": ei}
-					if got.panicked || got.class&want == 0 {
-						c.Violate(eng.Violation{Kind: "reference-mismatch", Key: caseKey(src, d.node, cfg), Coords: co, Case: describe(src, d.node, cfg), Expected: SetStr(want), Observed: got.String(), Detail: got.msg})
+				for ei, e := range es {
+					unit++
+					if !c.Mine(unit) || !c.Want("n", ni) || !c.Want("c", ci) || !c.Want("e", ei) {
 						continue
 					}
-					g := group(d)
-					members[g] = append(members[g], d.val)
-					if prev, ok := seen[g]; ok {
-						if prev != cls3(got) {
-							c.Violate(eng.Violation{Kind: "hidden-content-influences-outcome", Key: caseKey(src, d.node, cfg), Coords: co, Case: describe(src, d.node, cfg),
-								Expected: v3name[prev] + " (as on " + seenDoc[g].String() + ")", Observed: got.String(), Detail: "nesting=" + nest.name})
-						}
-					} else {
-						seen[g] = cls3(got)
-						seenDoc[g] = d.node
-						c.R.Nontrivial++
+					if c.Expired() {
+						return
 					}
-					c.Count(v3name[cls3(got)])
-				}
-				// (c) filter over the members of each group: all kept or none kept (or an error)
-				if cfg.Tag == "bexpr" && cfg.Unknown == nil {
-					flt, err := bexpr.CreateFilter(src)
-					if err == nil && flt != nil {
-						for g, ms := range members {
-							sl := reflect.MakeSlice(reflect.SliceOf(reflect.TypeOf(ms[0])), 0, len(ms))
-							mp := reflect.MakeMap(reflect.MapOf(reflect.TypeOf(""), reflect.TypeOf(ms[0])))
-							for i, m := range ms {
-								sl = reflect.Append(sl, reflect.ValueOf(m))
-								mp.SetMapIndex(reflect.ValueOf(fmt.Sprint("k", i)), reflect.ValueOf(m))
+					src := Render(e)
+					ev, err := bexpr.CreateEvaluator(src, optsFor(cfg)...)
+					if err != nil {
+						c.Violate(eng.Violation{Kind: "harness-expression-rejected", Key: "create: " + src, Detail: err.Error()})
+						continue
+					}
+					seen := map[string]int{}
+					seenDoc := map[string]*Node{}
+					members := map[string][]interface{}{}
+					for _, d := range ds {
+						got := observe(ev, d.val)
+						want := NewRef(d.node, cfg).Eval(e, nil)
+						c.R.Evaluations++
+						c.R.Traces++
+						c.R.States++
+						co := map[string]int{"n": ni, "c": ci, "e": ei}
+						if got.panicked || got.class&want == 0 {
+							c.Violate(eng.Violation{Kind: "reference-mismatch", Key: caseKey(src, d.node, cfg), Coords: co, Case: describe(src, d.node, cfg), Expected: SetStr(want), Observed: got.String(), Detail: got.msg})
+							continue
+						}
+						g := group(d)
+						members[g] = append(members[g], d.val)
+						if prev, ok := seen[g]; ok {
+							if prev != cls3(got) {
+								c.Violate(eng.Violation{Kind: "hidden-content-influences-outcome", Key: caseKey(src, d.node, cfg), Coords: co, Case: describe(src, d.node, cfg),
+									Expected: v3name[prev] + " (as on " + seenDoc[g].String() + ")", Observed: got.String(), Detail: "nesting=" + nest.name})
 							}
-							for _, cont := range []reflect.Value{sl, mp} {
-								n, ferr, pan := execLen(flt, cont.Interface())
-								c.R.Evaluations++
-								if pan != "" || (ferr == nil && n != 0 && n != len(ms)) {
-									c.Violate(eng.Violation{Kind: "filter-selection-depends-on-hidden-content", Key: "filter=" + src + " | group=" + g + " | nesting=" + nest.name + " | kind=" + cont.Kind().String(),
-										Coords: map[string]int{"n": ni, "c": ci, "e": ei}, Expected: fmt.Sprintf("0 or %d elements kept", len(ms)), Observed: fmt.Sprintf("%d kept %s", n, pan)})
-								} else {
-									c.Count("filter-groups")
+						} else {
+							seen[g] = cls3(got)
+							seenDoc[g] = d.node
+							c.R.Nontrivial++
+						}
+						c.Count(v3name[cls3(got)])
+					}
+					// (c) filter over the members of each group: all kept or none kept (or an error)
+					if cfg.Tag == "bexpr" && cfg.Unknown == nil {
+						flt, err := bexpr.CreateFilter(src)
+						if err == nil && flt != nil {
+							for g, ms := range members {
+								sl := reflect.MakeSlice(reflect.SliceOf(reflect.TypeOf(ms[0])), 0, len(ms))
+								mp := reflect.MakeMap(reflect.MapOf(reflect.TypeOf(""), reflect.TypeOf(ms[0])))
+								for i, m := range ms {
+									sl = reflect.Append(sl, reflect.ValueOf(m))
+									mp.SetMapIndex(reflect.ValueOf(fmt.Sprint("k", i)), reflect.ValueOf(m))
+								}
+								for _, cont := range []reflect.Value{sl, mp} {
+									n, ferr, pan := execLen(flt, cont.Interface())
+									c.R.Evaluations++
+									if pan != "" || (ferr == nil && n != 0 && n != len(ms)) {
+										c.Violate(eng.Violation{Kind: "filter-selection-depends-on-hidden-content", Key: "filter=" + src + " | group=" + g + " | nesting=" + nest.name + " | kind=" + cont.Kind().String(),
+											Coords: map[string]int{"n": ni, "c": ci, "e": ei}, Expected: fmt.Sprintf("0 or %d elements kept", len(ms)), Observed: fmt.Sprintf("%d kept %s", n, pan)})
+									} else {
+										c.Count("filter-groups")
+									}
 								}
 							}
 						}
 					}
+					c.Sample(map[string]any{"expression": src, "config": cfg.String(), "nesting": nest.name, "data": len(ds)})
 				}
-				c.Sample(map[string]any{"expression": src, "config": cfg.String(), "nesting": nest.name, "data": len(ds)})
 			}
 		}
 	}
